@@ -37,6 +37,7 @@ from . import c19_core as C
 from . import c19_gen as G
 from . import c19_groups as Gr
 from . import c19_seeds as S
+from . import c19_stream as St
 from . import c19_typed as Ty
 from .common import hx, unhx
 
@@ -62,7 +63,7 @@ ASSUMPTIONS = ["configuration integers (sizes, indexes, bit counts) passed besid
                "with BTClibTypeError by the library's documented policy (utils.is_integer: a bool is not an integer), also out of a "
                "verifier - that one refusal is not counted as 'raises instead of answering'"]
 
-ORACLES = {"call": C.replay_call}
+ORACLES = {"call": C.replay_call, "trailing": St.replay_trailing}
 
 NPROC = 16
 
@@ -74,7 +75,14 @@ def _cls(name):
 
 
 _POS = {"pos.outpoint": "OutPoint", "pos.witness": "Witness", "pos.txin": "TxIn", "pos.txout": "TxOut", "pos.tx": "Tx",
-        "pos.header": "BlockHeader", "pos.block": "Block"}
+        "pos.header": "BlockHeader", "pos.block": "Block",
+        # the later codecs of wire_parsers_read_exactly (C05's p2p layer, xkey) ...
+        "pos.msg": "Message", "pos.netaddr": "NetworkAddress", "pos.timedaddr": "TimestampedNetworkAddress", "pos.addr": "Addr",
+        "pos.inventory": "Inventory", "pos.inv": "Inv", "pos.getheaders": "GetHeaders", "pos.headers": "Headers", "pos.xkey": "BIP32KeyData",
+        # ... and those of more_wire_parsers_read_exactly
+        "pos.ping": "Ping", "pos.feefilter": "FeeFilter", "pos.sendcmpct": "SendCmpct", "pos.getcfilters": "GetCFilters",
+        "pos.cfilter": "CFilter", "pos.cfheaders": "CFHeaders", "pos.getcfcheckpt": "GetCFCheckpt", "pos.cfcheckpt": "CFCheckpt",
+        "pos.ssasig": "ssa.Sig", "pos.bmssig": "bms.Sig"}
 _TREE_KEYS = {}
 
 
@@ -204,6 +212,9 @@ def _worker(task):
             Gr.exhaustive_field_edits(R, group.split(":", 1)[1])
         elif group.startswith("everykey:"):
             Gr.json_every_key(R, group.split(":", 1)[1])
+        elif group == "trailing":
+            R.spell_rate = 0.0
+            St.g_trailing(R, rng, n)
         elif group == "typed":
             R.spell_rate = 0.0      # the sweep spells every buffer itself
             Ty.g_typed(R, rng, n)
@@ -228,6 +239,16 @@ def _merge(ctx, res):
         raise common.HarnessError(res["error"])
     for (stream, ep, outcome), k in res["counts"].items():
         ctx.count(stream, outcome, k)
+        if stream in ("trailing.class", "trailing.seeds", "trailing.reser"):
+            h = ctx.hist.setdefault(stream + ("." + outcome if stream != "trailing.class" else ""), {})
+            if stream == "trailing.class":
+                h[ep.replace("btclib.", "")] = outcome
+            else:
+                h[ep.replace("btclib.", "")] = h.get(ep.replace("btclib.", ""), 0) + k
+            continue
+        if stream == "trailing" and outcome != "undriven":
+            h = ctx.hist.setdefault("trailing.calls_per_entry_point", {})
+            h[ep.replace("btclib.", "")] = h.get(ep.replace("btclib.", ""), 0) + k
         if stream in ("typed.answers", "typed.seeds"):
             # per entry point: how the bool-returning callable answered the typed-hostile sweep
             h = ctx.hist.setdefault("typed." + ("seed_calls_" if stream == "typed.seeds" else "") + outcome.split(":")[0].lower() + "_per_entry_point", {})
@@ -259,7 +280,7 @@ def _merge(ctx, res):
         seen[f["key"]] = seen.get(f["key"], 0) + 1
         if seen[f["key"]] <= 2:
             ctx.fail("property", f["stream"] + "/" + f["key"], f["detail"], key=f["key"],
-                     oracle={"oracle": "call", "witness": f["witness"]})
+                     oracle={"oracle": f["witness"].get("_oracle", "call") if isinstance(f["witness"], dict) else "call", "witness": f["witness"]})
 
 
 # ----------------------------------------------------------------------------- correspondence streams
@@ -363,6 +384,8 @@ def run(ctx):
         tasks.append(("spell", ctx.rng.getrandbits(62), ctx.n(700, 8000)))
         tasks.append(("coreimport", ctx.rng.getrandbits(62), ctx.n(1500, 40000)))
         tasks.append(("msdecode", (ctx.rng.getrandbits(60) << 1) | part, ctx.n(9000, 10**7)))
+    for part in range(8):           # trailing bytes after every parse(stream) entry point: entry point k goes to task k mod 8
+        tasks.append(("trailing", (ctx.rng.getrandbits(56) << 3) | part, ctx.n(1200, 60000)))
     for part in range(16):          # the typed-hostile sweep of every bool-returning callable: entry point k goes to task k mod 16
         tasks.append(("typed", (ctx.rng.getrandbits(56) << 4) | part, ctx.n(60, 3000)))
     if ctx.tier == "thorough":
@@ -476,6 +499,23 @@ def run(ctx):
     for e in beps:
         if (C.is_verifier(e) or e in Ty.ASSERTION_EPS) and e.replace("btclib.", "") not in tcalls:
             raise common.HarnessError(f"typed sweep: anchored verifier {e} was not driven")
+    # the trailing-bytes oracle: every parse(stream) entry point is classified and listed
+    seps = St.stream_entry_points()
+    tcls = ctx.hist.pop("trailing.class", {})
+    tdrv = ctx.hist.get("trailing.calls_per_entry_point", {})
+    by = {}
+    for e in sorted(seps):
+        by.setdefault(St.classify(e), []).append(e.replace("btclib.", ""))
+    ctx.note(f"stream entry points (first parameter admits a BytesIO) found by introspection: {len(seps)}; with a Lean codec "
+             f"(wire_parsers_read_exactly / more_wire_parsers_read_exactly / record loop; position also compared with the model by pos.*): "
+             f"{len(by.get('modelled', []))}; whole-stream by design: {by.get('whole-stream', [])}; utilities: {by.get('utility', [])}")
+    ctx.note(f"stream entry points without a Lean codec (trailing-bytes oracle only): {len(by.get('oracle-only', []))}: {by.get('oracle-only', [])}")
+    und = [e for e in sorted(seps) if St.classify(e) != "utility" and e.replace("btclib.", "") not in tdrv]
+    if und:
+        raise common.HarnessError(f"trailing-bytes oracle: stream entry points without a seed encoding: {und}")
+    rd = ctx.hist.get("trailing.reser.reser!=pos", {})
+    if rd:
+        ctx.note(f"trailing: seeds whose re-serialization is not as long as the bytes read (a normalising codec, not an over-read): {rd}")
     srefused = ctx.hist.get("typed.seed_calls_refused_per_entry_point", {})
     if srefused:
         ctx.note(f"typed sweep: seed calls that were refused (the sweep still runs from them): {srefused}")
